@@ -197,6 +197,8 @@ type sessSnap struct {
 	step   int
 	base   string
 	read   func() string
+	heap   func() string // fingerprint of the reachable backing arrays (sess_heap.go)
+	heap0  string
 	cursor lungo.ICursor
 	dead   bool
 }
@@ -734,6 +736,10 @@ func (m *sessRunner) step(st *sessStep, h *sessHist) sessOut {
 			sn.dead = true
 			viol("C03", fmt.Sprintf("a %s snapshot taken after step %d changed during step %d", sn.kind, sn.step, m.nstep),
 				"snapshot-changed:"+sn.kind, "was "+sn.base+"\nnow "+cur)
+		} else if sn.heap != nil && sn.heap() != sn.heap0 {
+			sn.dead = true
+			viol("C03", fmt.Sprintf("memory reachable from a %s snapshot taken after step %d was written during step %d (its observable value is unchanged)", sn.kind, sn.step, m.nstep),
+				"snapshot-heap-written:"+sn.kind, "")
 		}
 	}
 	if st.Snap != "" && !m.dead {
@@ -837,12 +843,14 @@ func (m *sessRunner) takeSnap(spec string, sid int) (sn *sessSnap) {
 	case "catalog":
 		cat := m.engine.Catalog()
 		sn.read = func() string { return sessDumpOpt(cat, true) }
+		sn.heap = func() string { return sessHeapHash(cat) }
 	case "sesscat":
 		if sid < 0 || m.sess[sid].Transaction() == nil {
 			return nil
 		}
 		cat := m.sess[sid].Transaction().Catalog()
 		sn.read = func() string { return sessDumpOpt(cat, true) }
+		sn.heap = func() string { return sessHeapHash(cat) }
 	case "txn":
 		txn, err := m.engine.Begin(nil, false)
 		if err != nil {
@@ -861,6 +869,7 @@ func (m *sessRunner) takeSnap(spec string, sid int) (sn *sessSnap) {
 			sb.WriteString(sessDumpOpt(txn.Catalog(), true))
 			return sb.String()
 		}
+		sn.heap = func() string { return sessHeapHash(txn.Catalog()) }
 	case "cursor", "sesscursor":
 		var csr lungo.ICursor
 		var err error
@@ -887,10 +896,17 @@ func (m *sessRunner) takeSnap(spec string, sid int) (sn *sessSnap) {
 			l, _ := sessCursorList(csr)
 			return vj.EncDocs(l)
 		}
+		sn.heap = func() string {
+			l, _ := sessCursorList(csr)
+			return sessHeapHashList(l)
+		}
 	default:
 		return nil
 	}
 	sn.base = sn.read()
+	if sn.heap != nil {
+		sn.heap0 = sn.heap()
+	}
 	return sn
 }
 
